@@ -178,7 +178,7 @@ func init() {
 var profC09 = Profile{
 	MaxProcs: 5, MaxItems: 4, Bufsizes: []int{0, 1, 2}, MaxSlots: 5,
 	Params: true, MultiOut: true, FanIn: true, FanOut: true, NoPort: true, Custom: true, Sinkless: true,
-	Subdirs: true, Cores: true, TwoSources: true, Zip: true,
+	Subdirs: true, Cores: true, TwoSources: true, Zip: true, EmptyOuts: true,
 }
 
 // dependents: keys of tasks that (transitively) consume an output of t.
@@ -265,7 +265,7 @@ func failureOracle(inc *Inc, ex *Expect, victim *RTask, what string, others ...*
 
 func init() {
 	Register(&Check{ID: "C09", Level: "exploration",
-		Rule: "one case = one generated workflow, one tape-chosen victim task and one failure kind (cmd-exit before / after partial write / after all outputs, cmd-signal at a tape-chosen micro-step, cmd-omit of one declared output, bad-input: empty parameter value or invalid character in the output path) injected while sibling tasks run under a tape-chosen schedule. Oracle: exit status != 0, RUN-RETURNED marker absent, no output of the victim at its final path, no start event of any transitive dependant, everything else that was finalized is reference-correct. distinct = event-log hash; non-trivial = the fault fired, >=1 other task executed, >=1 non-default choice",
+		Rule: "one case = one generated workflow, one tape-chosen victim task and one failure kind (cmd-exit before / after partial write / after all outputs, cmd-signal at a tape-chosen micro-step, cmd-omit of one declared output, cmd-list: the command is an && list whose middle step fails after the first step wrote all outputs, bad-input: empty parameter value or invalid character in the output path) injected while sibling tasks run under a tape-chosen schedule. Oracle: exit status != 0, RUN-RETURNED marker absent, no output of the victim at its final path, no start event of any transitive dependant, everything else that was finalized is reference-correct. distinct = event-log hash; non-trivial = the fault fired, >=1 other task executed, >=1 non-default choice",
 		Run: func(c *Case) Verdict {
 			var w *WF
 			if c.Tape.Choose(simrt.StGen, 8, 0) == 1 {
@@ -284,10 +284,59 @@ func init() {
 				c.Probe("trivial-case-nothing-to-fail")
 				return OK()
 			}
-			kind := c.Tape.Choose(simrt.StFault, 7, 0)
+			kind := c.Tape.Choose(simrt.StFault, 8, 0)
 			var victim *RTask
 			what := ""
 			var fault *FaultSpec
+			if kind == 7 {
+				// the command is an && list whose middle step fails after the first step
+				// wrote every output: all tasks of that process fail
+				var procs []*Node
+				for i := range w.Nodes {
+					n := &w.Nodes[i]
+					if n.Kind != KProc || n.Custom != 0 || len(n.Outs) == 0 {
+						continue
+					}
+					streams := false
+					for _, o := range n.Outs {
+						streams = streams || o.Stream
+					}
+					if !streams {
+						procs = append(procs, n)
+					}
+				}
+				if len(procs) == 0 {
+					kind = c.Tape.Choose(simrt.StFault, 5, 0)
+				} else {
+					pn := procs[c.Tape.Choose(simrt.StFault, len(procs), 0)]
+					pn.Suffix = []string{"&& false && true", "&& false && echo done", "&& test -e no_such_file && true"}[c.Tape.Choose(simrt.StFault, 3, 0)]
+					var victims []*RTask
+					for _, t := range ex.Tasks {
+						if t.Proc == pn.Name {
+							victims = append(victims, t)
+						}
+					}
+					if len(victims) == 0 {
+						c.Probe("trivial-case-nothing-to-fail")
+						return OK()
+					}
+					what = "cmd-list-middle-step-fails (" + pn.Suffix + ")"
+					c.Fault("cmd-list-middle-fails")
+					c.Sample = "fail every task of " + pn.Name + " by " + what + ": " + sample(w)
+					inc := RunInc(w, c.Tape, nil, 0, IncOpts{KillAt: -1, Strategy: strategyOf(c.Tape), Trace: c.Trace})
+					c.Absorb(inc)
+					c.Tasks++
+					for i, v := range victims {
+						var others []*RTask
+						others = append(others, victims[:i]...)
+						others = append(others, victims[i+1:]...)
+						if vd := failureOracle(inc, ex, v, what, others...); vd.Status != "ok" {
+							return vd
+						}
+					}
+					return OK()
+				}
+			}
 			if kind >= 5 {
 				// bad input: needs a parameter port fed by FromStr
 				var pn *Node
